@@ -53,12 +53,38 @@ func ttlOf(v int) int64 {
 	}
 }
 
+type c03Event struct {
+	atomic bool
+	key    int
+	val    int
+	cause  otter.DeletionCause
+	clock  int64
+}
+
 func runC03(cfg c03Cfg) (violation string, exposuresChecked, expiredUnsweptOps int64) {
+	v, _, a, b := runC03Events(cfg)
+	return v, a, b
+}
+
+// runC03Events is runC03 plus the deletion-event oracle used by C06 (expiry under concurrency).
+func runC03Events(cfg c03Cfg) (violation, eventViolation string, exposuresChecked, expiredUnsweptOps int64) {
 	clk := &phaseClock{tick: make(chan time.Time)}
 	clk.now.Store(1_000_000_000)
 	var wg sync.WaitGroup
+	var emu sync.Mutex
+	var events []c03Event
+	rec := func(at bool) func(e otter.DeletionEvent[int, int]) {
+		return func(e otter.DeletionEvent[int, int]) {
+			now := clk.now.Load()
+			emu.Lock()
+			events = append(events, c03Event{at, e.Key, e.Value, e.Cause, now})
+			emu.Unlock()
+		}
+	}
 	o := &otter.Options[int, int]{
-		Clock: clk,
+		OnAtomicDeletion: rec(true),
+		OnDeletion:       rec(false),
+		Clock:            clk,
 		ExpiryCalculator: otter.ExpiryWritingFunc(func(e otter.Entry[int, int]) time.Duration {
 			return time.Duration(ttlOf(e.Value))
 		}),
@@ -80,13 +106,14 @@ func runC03(cfg c03Cfg) (violation string, exposuresChecked, expiredUnsweptOps i
 	}
 	c, err := otter.New(o)
 	if err != nil {
-		return "", 0, 0
+		return "", "", 0, 0
 	}
 	defer c.StopAllGoroutines()
 	otter.VerifSetHook(compHook(cfg.Seed, cfg.DelayPerM))
 	defer otter.VerifSetHook(nil)
 
-	deadline := sync.Map{} // value -> deadline
+	deadline := sync.Map{}  // value -> deadline
+	installed := sync.Map{} // values that were certainly installed
 	var vmu sync.Mutex
 	fail := func(s string) {
 		vmu.Lock()
@@ -136,12 +163,14 @@ func runC03(cfg c03Cfg) (violation string, exposuresChecked, expiredUnsweptOps i
 						if old, ok := c.Set(k, v); !ok {
 							expose("Set (as the previous value)", k, old, now)
 						}
+						installed.Store(v, true)
 						lastDeadline[k].Store(now + ttlOf(v))
 					case 3:
 						v := newVal()
 						if old, ok := c.SetIfAbsent(k, v); !ok {
 							expose("SetIfAbsent (as the present value)", k, old, now)
 						} else {
+							installed.Store(v, true)
 							lastDeadline[k].Store(now + ttlOf(v))
 						}
 					case 4, 5:
@@ -164,6 +193,7 @@ func runC03(cfg c03Cfg) (violation string, exposuresChecked, expiredUnsweptOps i
 							if v%3 == 0 {
 								return 0, otter.CancelOp
 							}
+							installed.Store(v, true)
 							return v, otter.WriteOp
 						})
 					case 8:
@@ -218,7 +248,125 @@ func runC03(cfg c03Cfg) (violation string, exposuresChecked, expiredUnsweptOps i
 			wg.Wait()
 		}
 	}
-	return violation, checked.Load(), onExpired.Load()
+	// ---- the deletion events of the whole trial (C06 with expiry under concurrency) ----
+	// Let everything expire and be swept, then every written value must have been reported
+	// exactly once by each handler, with a cause that fits its deadline at the time of the event.
+	clk.now.Store(clk.now.Load() + int64(1)<<62)
+	c.CleanUp()
+	wg.Wait()
+	c.CleanUp()
+	wg.Wait()
+	if violation == "" {
+		type kv struct{ k, v int }
+		atomicSeen := map[kv]c03Event{}
+		delSeen := map[kv]c03Event{}
+		for _, e := range events {
+			p := kv{e.key, e.val}
+			d, ok := deadline.Load(e.val)
+			if !ok {
+				eventViolation = fmt.Sprintf("a deletion handler reported (%d,%d,%s), a value that was never written", e.key, e.val, e.cause)
+				break
+			}
+			m := delSeen
+			if e.atomic {
+				m = atomicSeen
+			}
+			if prev, dup := m[p]; dup {
+				eventViolation = fmt.Sprintf("value (%d,%d) was reported twice to the same handler (%s, then %s)", e.key, e.val, prev.cause, e.cause)
+				break
+			}
+			m[p] = e
+			if e.atomic {
+				expired := d.(int64) <= e.clock
+				switch e.cause {
+				case otter.CauseExpiration:
+					if !expired {
+						eventViolation = fmt.Sprintf("value (%d,%d) was reported with cause Expiration at clock %d, its expiration time is %d", e.key, e.val, e.clock, d.(int64))
+					}
+				case otter.CauseReplacement, otter.CauseInvalidation:
+					if expired {
+						eventViolation = fmt.Sprintf("value (%d,%d) was reported with cause %s at clock %d although it had expired at %d", e.key, e.val, e.cause, e.clock, d.(int64))
+					}
+				case otter.CauseOverflow:
+					if cfg.Max == 0 {
+						eventViolation = fmt.Sprintf("value (%d,%d) reported with cause Overflow in a cache without a size bound", e.key, e.val)
+					}
+				}
+				if eventViolation != "" {
+					break
+				}
+			}
+		}
+		if eventViolation == "" {
+			for p, a := range atomicSeen {
+				d, ok := delSeen[p]
+				if !ok {
+					eventViolation = fmt.Sprintf("value (%d,%d) was reported to OnAtomicDeletion (%s) but never to OnDeletion", p.k, p.v, a.cause)
+					break
+				}
+				if d.cause != a.cause {
+					eventViolation = fmt.Sprintf("value (%d,%d): OnAtomicDeletion says %s, OnDeletion says %s", p.k, p.v, a.cause, d.cause)
+					break
+				}
+			}
+		}
+		if eventViolation == "" && len(delSeen) != len(atomicSeen) {
+			eventViolation = fmt.Sprintf("%d values were reported to OnDeletion but %d to OnAtomicDeletion", len(delSeen), len(atomicSeen))
+		}
+		if eventViolation == "" {
+			if n := c.EstimatedSize(); n != 0 {
+				eventViolation = fmt.Sprintf("after every deadline passed and two CleanUps %d entries are still counted", n)
+			}
+			// conservation: every value that was certainly installed has been reported (nothing is left)
+			installed.Range(func(k, _ any) bool {
+				v := k.(int)
+				found := false
+				for p := range atomicSeen {
+					if p.v == v {
+						found = true
+						break
+					}
+				}
+				if !found {
+					eventViolation = fmt.Sprintf("value %d was written, nothing is present any more, and it was never reported to the deletion handlers", v)
+					return false
+				}
+				return true
+			})
+		}
+	}
+	return violation, eventViolation, checked.Load(), onExpired.Load()
+}
+
+// RunC06Expiry runs the phased trials for their deletion events (C06 with expiry under concurrency).
+func RunC06Expiry(col *core.Collector, tier, variant string, seed uint64, shard, nshards int, replayDir string) {
+	n := 400
+	if tier == "thorough" {
+		n = 12000
+	}
+	if variant != "plain" {
+		n /= 3
+	}
+	for i := shard; i < n; i += nshards {
+		r := core.NewRng(core.Derive(seed, core.StrLabel("C06expiry"), core.StrLabel(variant), uint64(i)))
+		cfg := c03Cfg{Seed: r.U64(), Index: i, G: 2 + r.Intn(6), Keys: 1 + r.Intn(6), Phases: 4 + r.Intn(12), Ops: 10 + r.Intn(40),
+			DelayPerM: []int{0, 50, 200}[r.Intn(3)], Exec: r.Intn(2)}
+		if r.Chance(1, 2) {
+			cfg.Max = 1 + r.Intn(6)
+		}
+		_, ev, checked, _ := runC03Events(cfg)
+		col.Eval(1)
+		col.Count("c06.expiry_trials", 1)
+		col.Count("c06.expiry_exposures", checked)
+		col.NonTrivial(core.HashJSON(cfg))
+		if ev != "" {
+			path := writeReplay(replayDir, fmt.Sprintf("C06-expiry-%x.json", core.HashJSON(cfg)), map[string]any{"engine": "c06-expiry", "trial": cfg, "violation": ev})
+			col.Violation(core.Violation{Property: "C06", Signature: "c06-expiry:" + sigText(ev), Detail: ev + fmt.Sprintf(" (trial %+v)", cfg), Replay: path})
+			if col.NumViolations() >= 5 {
+				break
+			}
+		}
+	}
 }
 
 // RunC03 runs the phased concurrent trials.
